@@ -312,3 +312,254 @@ func ruleTAILOFFSET(p *Program, rep *Report) {
 		rep.Unknown("TAIL-OFFSET", "anchor", "", "no WritePosition to queuePage.tail found (anchor lost)")
 	}
 }
+
+// areaOfMarkerAddr: for &x.<area>.endMarker returns the name of the area field ("data" / "meta").
+func areaOfMarkerAddr(v ssa.Value, endMarker *types.Var) string {
+	fa, ok := v.(*ssa.FieldAddr)
+	if !ok || fieldOfAddr(fa) != endMarker {
+		return ""
+	}
+	if in, ok := fa.X.(*ssa.FieldAddr); ok {
+		return fieldOfAddr(in).Name()
+	}
+	return ""
+}
+
+// ruleFILEENDAGREE (C04): sibling agreement between the routines that take pages from the unused end of
+// the data area.  The meta area's end marker doubles as the end of the file (the overflow area is carved
+// out beyond it), so whoever advances the data end marker pulls the meta end marker up to it.
+func ruleFILEENDAGREE(p *Program, rep *Report) {
+	rep.Rule("FILE-END-AGREE", 2, "the routines that advance the data area's end marker agree on maintaining 'meta end marker ≥ data end marker': after the advance, on every path, the meta end marker is raised to the data end marker (possibly under the test meta < data). If some do and one does not, overflow pages are later carved out at a stale meta end marker, inside pages already handed out")
+	v := newAllocVocab(p)
+	isMarkerLoadOf := func(x ssa.Value, area string) bool {
+		u, ok := stripConv(x).(*ssa.UnOp)
+		return ok && u.Op == token.MUL && areaOfMarkerAddr(u.X, v.fEndMarker) == area
+	}
+	// raise: store meta.endMarker = load data.endMarker
+	isRaise := func(ins ssa.Instruction) bool {
+		st, ok := ins.(*ssa.Store)
+		return ok && areaOfMarkerAddr(st.Addr, v.fEndMarker) == "meta" && isMarkerLoadOf(st.Val, "data")
+	}
+	raises := map[*ssa.Function]bool{}
+	for _, fn := range p.SrcFuncs() {
+		for _, b := range fn.Blocks {
+			for _, ins := range b.Instrs {
+				if isRaise(ins) {
+					raises[fn] = true
+				}
+			}
+		}
+	}
+	type site struct {
+		fn  *ssa.Function
+		adv ssa.Instruction
+		ok  bool
+	}
+	var sites []site
+	for _, fn := range p.SrcFuncs() {
+		if fnPkgPath(fn) != modPath {
+			continue
+		}
+		var pd map[*ssa.BasicBlock]map[*ssa.BasicBlock]bool
+		for _, b := range fn.Blocks {
+			for i, ins := range b.Instrs {
+				c, ok := ins.(ssa.CallInstruction)
+				if !ok || c.Common().StaticCallee() != v.allocFromArea || len(c.Common().Args) < 2 || areaOfMarkerAddr(c.Common().Args[1], v.fEndMarker) != "data" {
+					continue
+				}
+				if pd == nil {
+					pd = postDominators(fn)
+				}
+				after := func(blk *ssa.BasicBlock, idx int) bool { // position is executed on every path after the advance
+					return (blk == b && idx > i) || (blk != b && pd[b][blk])
+				}
+				good := false
+				for _, b2 := range fn.Blocks {
+					for j, in2 := range b2.Instrs {
+						cand := isRaise(in2)
+						if c2, ok := in2.(ssa.CallInstruction); ok && !cand {
+							if sc := c2.Common().StaticCallee(); sc != nil && raises[sc] {
+								cand = true
+							}
+						}
+						if !cand {
+							continue
+						}
+						if after(b2, j) {
+							good = true
+							continue
+						}
+						// guarded raise: the deciding branch compares the two markers and is itself always reached
+						if len(b2.Preds) == 1 {
+							pr := b2.Preds[0]
+							if iff, ok := pr.Instrs[len(pr.Instrs)-1].(*ssa.If); ok {
+								if bo, ok := iff.Cond.(*ssa.BinOp); ok &&
+									((isMarkerLoadOf(bo.X, "meta") && isMarkerLoadOf(bo.Y, "data")) || (isMarkerLoadOf(bo.X, "data") && isMarkerLoadOf(bo.Y, "meta"))) &&
+									after(pr, len(pr.Instrs)-1) {
+									good = true
+								}
+							}
+						}
+					}
+				}
+				sites = append(sites, site{fn, ins, good})
+			}
+		}
+	}
+	anyGood := false
+	for _, s := range sites {
+		anyGood = anyGood || s.ok
+	}
+	for _, s := range sites {
+		rep.Analysed(funcName(s.fn))
+		key := funcName(s.fn) + "|data-end-advance"
+		switch {
+		case s.ok:
+			rep.OK("FILE-END-AGREE", key, p.InstrPos(s.adv), "meta end marker raised after the advance")
+		case anyGood:
+			rep.Bad("FILE-END-AGREE", key, p.InstrPos(s.adv), "this routine advances the data end marker without raising the meta end marker to it, while its sibling(s) do: the meta end marker (= end of file for the overflow area) stays behind, and a later overflow allocation hands out pages in [meta end, data end) that are already in use")
+		default:
+			rep.OK("FILE-END-AGREE", key, p.InstrPos(s.adv), "no routine maintains the relation here (siblings agree)")
+		}
+	}
+	if len(sites) == 0 {
+		rep.Unknown("FILE-END-AGREE", "anchor", "", "no advance of the data end marker through allocFromArea found (anchor lost)")
+	}
+}
+
+// isLenOfParam: v is len(x) where x is the given parameter (possibly re-sliced).
+func isLenOfParam(v ssa.Value, par *ssa.Parameter) bool {
+	c, ok := stripConv(v).(*ssa.Call)
+	if !ok {
+		return false
+	}
+	b, ok := c.Common().Value.(*ssa.Builtin)
+	if !ok || b.Name() != "len" || len(c.Common().Args) != 1 {
+		return false
+	}
+	x := c.Common().Args[0]
+	for {
+		if sl, ok := x.(*ssa.Slice); ok && sl.Low == nil {
+			x = sl.X
+			continue
+		}
+		break
+	}
+	return x == ssa.Value(par)
+}
+
+// proveLELen: v ≤ len(par) on every path, using φ-edge facts (the `if l < max { max = l }` idiom) and min().
+func proveLELen(v ssa.Value, par *ssa.Parameter, depth int) bool {
+	if depth > 6 {
+		return false
+	}
+	v = stripConv(v)
+	if isLenOfParam(v, par) {
+		return true
+	}
+	switch x := v.(type) {
+	case *ssa.Call:
+		if b, ok := x.Common().Value.(*ssa.Builtin); ok && b.Name() == "min" {
+			for _, a := range x.Common().Args {
+				if proveLELen(a, par, depth+1) {
+					return true
+				}
+			}
+		}
+	case *ssa.Phi:
+		for i, e := range x.Edges {
+			if proveLELen(e, par, depth+1) {
+				continue
+			}
+			facts := edgeFacts(x.Block().Preds[i], x.Block(), 0, map[ssa.Value]bool{})
+			// also what dominates the predecessor
+			facts = dnfAnd(facts, blockFacts(x.Block().Preds[i]))
+			ok := len(facts) > 0 && facts.every(func(cj conj) bool {
+				return cj.has(func(a atom) bool {
+					op, l, r, isCmp := cmpAtom(a)
+					if !isCmp {
+						return false
+					}
+					switch op {
+					case token.LEQ, token.LSS: // e <= len / e < len
+						return stripConv(l) == stripConv(e) && isLenOfParam(r, par)
+					case token.GEQ, token.GTR: // len >= e
+						return stripConv(r) == stripConv(e) && isLenOfParam(l, par)
+					}
+					return false
+				})
+			})
+			if !ok {
+				return false
+			}
+		}
+		return true
+	}
+	return false
+}
+
+// ruleSYNCCOVERSBATCH (C01): the writer decides "all writes issued before this fsync request fit into the
+// batch I am about to execute" by comparing their number with a bound; the batch really executed is cut to
+// the batch buffer, so the bound must not exceed the buffer length.
+func ruleSYNCCOVERSBATCH(p *Program, rep *Report) {
+	rep.Rule("SYNC-COVERS-BATCH", 1, "in writer.nextCommand the number of writes still outstanding before a requested fsync is compared with a bound that is provably ≤ len(buf), the capacity of the batch that is executed before the fsync: with a larger bound the fsync is issued after only part of the transaction's page writes, the header barrier is consumed by left-over data pages and the header itself is written without any fsync")
+	fn := p.Method("txfile", "writer", "nextCommand")
+	count := p.FieldVar("txfile", "syncMsg", "count")
+	published := p.FieldVar("txfile", "writer", "published")
+	if len(fn.Params) < 2 {
+		rep.Unknown("SYNC-COVERS-BATCH", "anchor", p.Pos(fn.Pos()), "writer.nextCommand has no batch buffer parameter")
+		return
+	}
+	var buf *ssa.Parameter
+	for _, par := range fn.Params {
+		if _, ok := par.Type().Underlying().(*types.Slice); ok {
+			buf = par
+		}
+	}
+	if buf == nil {
+		rep.Unknown("SYNC-COVERS-BATCH", "anchor", p.Pos(fn.Pos()), "writer.nextCommand has no slice parameter (batch buffer)")
+		return
+	}
+	rep.Analysed(funcName(fn))
+	isOutstanding := func(v ssa.Value) bool {
+		bo, ok := stripConv(v).(*ssa.BinOp)
+		if !ok || bo.Op != token.SUB {
+			return false
+		}
+		fromCount := derivesFrom(bo.X, func(b ssa.Value) bool { return loadedField(b) == count }, 0, map[ssa.Value]bool{})
+		return fromCount && loadedField(bo.Y) == published
+	}
+	n := 0
+	for _, b := range fn.Blocks {
+		for _, ins := range b.Instrs {
+			bo, ok := ins.(*ssa.BinOp)
+			if !ok {
+				continue
+			}
+			var bound ssa.Value
+			switch bo.Op {
+			case token.LEQ, token.LSS:
+				if isOutstanding(bo.X) {
+					bound = bo.Y
+				}
+			case token.GEQ, token.GTR:
+				if isOutstanding(bo.Y) {
+					bound = bo.X
+				}
+			}
+			if bound == nil {
+				continue
+			}
+			n++
+			key := "writer.nextCommand|fsync-decision"
+			if proveLELen(bound, buf, 0) {
+				rep.OK("SYNC-COVERS-BATCH", key, p.InstrPos(ins), "bound ≤ len(buf) on every path")
+			} else {
+				rep.Bad("SYNC-COVERS-BATCH", key, p.InstrPos(ins), "the fsync is taken when the outstanding writes are ≤ a bound that is not limited to len(buf): with more queued writes than the batch buffer holds the fsync runs after the first len(buf) writes only — later page writes and the header of the same commit are not covered by the barrier they were scheduled before")
+			}
+		}
+	}
+	if n == 0 {
+		rep.Unknown("SYNC-COVERS-BATCH", "anchor", p.Pos(fn.Pos()), "no comparison of the outstanding write count (syncMsg.count - writer.published) found (anchor lost)")
+	}
+}
